@@ -86,6 +86,15 @@ def api(fn=None, *, name=None):
         nm = name or fn.__name__
         @functools.wraps(fn)
         def wrapper(*args, **kwargs):
+            if kwargs.get('out') is not None:
+                # torch's out= : compute the result, write it into the given tensor in place, return that tensor
+                out_t = kwargs.pop('out')
+                res = wrapper(*args, **kwargs)
+                if not isinstance(out_t, Tensor) or not isinstance(res, Tensor):
+                    raise EngineGap(f"out= of {nm} with a non-tensor result")
+                copy_(out_t, res)
+                return out_t
+            kwargs.pop('out', None)
             if _DISPATCH[0]:
                 ts = []
                 _flat_tensors(args, ts); _flat_tensors(kwargs, ts)
@@ -1011,6 +1020,20 @@ def softplus(x, beta=1, threshold=20):
         return AT.log(Frac.const(1) + AT.exp(v * bq)) / bq
     return _ew1(f, x, 'f')
 @api
+def tensor_split(x, indices_or_sections, dim=0):
+    n = x._a.shape[dim]
+    if isinstance(indices_or_sections, (list, tuple)):
+        cuts = [builtins.min(builtins.max(_pyint(i), 0), n) for i in indices_or_sections]
+    else:
+        k = _pyint(indices_or_sections)
+        cuts = []; acc = 0
+        for i in range(k - 1):
+            acc += n // k + (1 if i < n % k else 0); cuts.append(acc)
+    outs = []; lo = 0
+    for c in cuts + [n]:
+        idx = [slice(None)] * x._a.ndim; idx[dim] = slice(lo, builtins.max(lo, c)); outs.append(_mk(x._a[tuple(idx)], x._k)); lo = builtins.max(lo, c)
+    return tuple(outs)
+@api
 def unflatten(x, dim, sizes):
     sizes = [_pyint(v) for v in sizes]
     d = dim if dim >= 0 else x._a.ndim + dim
@@ -1473,7 +1496,7 @@ def _bind():
     g = globals()
     names = '''add sub mul div neg pow sin cos tan exp log sqrt atan arctan asin arcsin acos abs sign nan_to_num square
         reciprocal rsqrt gt ge lt le eq ne logical_not logical_and logical_or all any sum mean prod cumsum max min amax amin
-        argmax argmin clamp clip clamp_min clamp_max diff softmax bitwise_left_shift count_nonzero unflatten unsqueeze squeeze expand expand_as repeat repeat_interleave tile reshape view view_as flatten ravel transpose
+        argmax argmin clamp clip clamp_min clamp_max diff softmax bitwise_left_shift count_nonzero unflatten tensor_split unsqueeze squeeze expand expand_as repeat repeat_interleave tile reshape view view_as flatten ravel transpose
         swapaxes swapdims permute movedim moveaxis t split chunk unbind select narrow index_select gather take_along_dim flip roll
         diagonal matmul mm bmm mv dot norm det inverse topk sort argsort median std var rad2deg where isnan isinf isfinite floor ceil round floor_divide remainder
         maximum minimum tril triu atan2 cross outer diag trace expm1 log1p vecdot multiply divide true_divide absolute'''.split()
